@@ -1,17 +1,25 @@
 import WfModel.Lemmas.Atoms.Ident
 import WfModel.Lemmas.Atoms.Lit
 import WfModel.Lemmas.Atoms.Sk
+import WfModel.Lemmas.Atoms.Path
+import WfModel.Lemmas.Atoms.Tail
 
 /-!
 # Concrete atoms: `GoodAtom` for real comparison expressions
 
-`CAtom` is a syntax of concrete atoms over a scheme — a bare boolean field, or
-`field ws₁ op ws₂ literal` with any of the six ordering operators in either spelling, any layout
-on both sides of the operator, and a literal of `Lit` (integer dec/hex/oct, quoted or raw byte
-string, IPv4 dotted quad, full IPv6). `CAtom.txt` is the character string, `CAtom.node` the
-intended AST node, `CAtom.ok` the decidable side conditions. `goodAtom` proves the hypothesis
-`GoodAtom` of `parse_render_logical` for every atom meeting them. Helper lemmas only; the
-property statements are in `Props/C01Atoms.lean`.
+`CAtom` is a syntax of concrete atoms over a scheme: `name path tail` with
+
+* `name` a field name;
+* `path` a (possibly empty) chain of index suffixes `[k]` / `["key"]` as written (`Ix`,
+  `Lemmas/Atoms/Path.lean`), layout allowed after `[` and before `]`;
+* `tail` (`Lemmas/Atoms/Tail.lean`) nothing (a `Bool` left-hand side), `ws₁ op ws₂ literal` with
+  any of the six ordering operators in either spelling and a literal of `Lit`,
+  `ws₁ in ws₂ { … }` with integer items `a` / `a..b`, or `ws₁ contains ws₂ "…"`.
+
+`CAtom.txt` is the character string, `CAtom.node` the intended AST node, `CAtom.ok` the decidable
+side conditions. `goodAtom` proves the hypothesis `GoodAtom` of `parse_render_logical` for every
+atom meeting them. `CAtom.boolField` / `CAtom.cmp` (empty path) are the atoms of the first
+version. Helper lemmas only; the property statements are in `Props/C01Atoms.lean`.
 -/
 namespace WfModel.Atoms
 
@@ -19,13 +27,19 @@ open WfModel WfModel.Render WfModel.C07L
 
 /-! ### syntax -/
 
-/-- concrete atoms -/
-inductive CAtom
-  /-- a bare field of type `Bool` (`ComparisonOpExpr::IsTrue`) -/
-  | boolField (name : List Char)
-  /-- `name ws₁ op ws₂ lit`; `sym` chooses the symbolic spelling of `op` -/
-  | cmp (name : List Char) (ws₁ : Input) (op : OrdOp) (sym : Bool) (ws₂ : Input) (lit : Lit)
+/-- concrete atoms: field name, index suffixes, what follows -/
+structure CAtom where
+  name : List Char
+  path : List Ix
+  tail : Tail
 deriving DecidableEq, Repr
+
+/-- a bare field of type `Bool` (`ComparisonOpExpr::IsTrue`) -/
+@[match_pattern] abbrev CAtom.boolField (name : List Char) : CAtom := ⟨name, [], .isTrue⟩
+
+/-- `name ws₁ op ws₂ lit`; `sym` chooses the symbolic spelling of `op` -/
+@[match_pattern] abbrev CAtom.cmp (name : List Char) (ws₁ : Input) (op : OrdOp) (sym : Bool)
+    (ws₂ : Input) (lit : Lit) : CAtom := ⟨name, [], .ord ws₁ op sym ws₂ lit⟩
 
 /-- `name ws₁ op ws₂ v` with the integer written in `form` (decimal by default) -/
 abbrev CAtom.intCmp (name : List Char) (ws₁ : Input) (op : OrdOp) (sym : Bool) (ws₂ : Input)
@@ -48,10 +62,20 @@ abbrev CAtom.ipCmp (name : List Char) (ws₁ : Input) (op : OrdOp) (sym : Bool) 
 abbrev CAtom.ip6Cmp (name : List Char) (ws₁ : Input) (op : OrdOp) (sym : Bool) (ws₂ : Input)
     (a : Nat) : CAtom := .cmp name ws₁ op sym ws₂ (.ip6 a)
 
-/-- **the text**: field name ++ ws₁ ++ operator spelling ++ ws₂ ++ literal rendering -/
-def CAtom.txt : CAtom → List Char
-  | .boolField name => name
-  | .cmp name ws₁ op sym ws₂ lit => name ++ (ws₁ ++ ((ordAlias op sym).toList ++ (ws₂ ++ lit.txt)))
+/-- `name ws₁ in ws₂ { ws₀ items }` -/
+abbrev CAtom.inSet (name : List Char) (ws₁ ws₂ ws₀ : Input) (items : List IntItem) : CAtom :=
+  ⟨name, [], .inInts ws₁ ws₂ ws₀ items⟩
+
+/-- `name ws₁ contains ws₂ lit` -/
+abbrev CAtom.containsCmp (name : List Char) (ws₁ ws₂ : Input) (lit : Lit) : CAtom :=
+  ⟨name, [], .contains ws₁ ws₂ lit⟩
+
+/-- the same atom on an indexed left-hand side: `name path tail` -/
+abbrev CAtom.indexed (a : CAtom) (path : List Ix) : CAtom := { a with path := path }
+
+/-- **the text**: field name ++ index suffixes ++ tail (for a comparison: ws₁ ++ operator
+spelling ++ ws₂ ++ literal rendering) -/
+def CAtom.txt (a : CAtom) : List Char := a.name ++ (pathTxt a.path ++ a.tail.txt)
 
 /-- index of the field called `name` (0 when there is none: excluded by `CAtom.ok`) -/
 def fieldIx (s : Scheme) (name : List Char) : Nat :=
@@ -59,15 +83,22 @@ def fieldIx (s : Scheme) (name : List Char) : Nat :=
   | some (.field i) => i
   | _ => 0
 
-/-- **the intended AST node** -/
-def CAtom.node (s : Scheme) : CAtom → LExpr
-  | .boolField name => .comparison (.field (fieldIx s name) []) .isTrue
-  | .cmp name _ op _ _ lit => .comparison (.field (fieldIx s name) []) (.ordering op lit.val)
+/-- **the intended AST node**: `ComparisonExpr { lhs: IndexExpr { field, indexes }, op }` -/
+def CAtom.node (s : Scheme) (a : CAtom) : LExpr :=
+  .comparison (.field (fieldIx s a.name) (a.path.map Ix.val)) a.tail.op
 
 /-- the scheme has a field of exactly that name, of type `t` -/
 def fieldHasTy (s : Scheme) (name : List Char) (t : Ty) : Bool :=
   match s.get name with
   | some (.field i) => s.fieldTy i == t
+  | _ => false
+
+/-- the scheme has a field of exactly that name, and the index path is well-typed for its
+declared type and leads to `t` (`pathTy`: array index on an array, key on a map, by recursion
+on the type: `pathTy_eq_tyAt`) -/
+def fieldPathTy (s : Scheme) (name : List Char) (path : List FieldIndex) (t : Ty) : Bool :=
+  match s.get name with
+  | some (.field i) => pathTy (s.fieldTy i) path == some t
   | _ => false
 
 /-- a valid identifier other than the word `not` itself. A REGISTERED name that merely begins
@@ -77,23 +108,31 @@ operator (nothing is glued to it), so a field literally called `not` cannot be w
 start of an operand. -/
 def nameGood (name : List Char) : Bool := nameOk name && name != "not".toList
 
-/-- **side conditions** (decidable).
-* `boolField`: valid name, not exactly `not`, not exactly `any`/`all` (those followed by
-  ` (` would be a quantifier call), a `Bool` field of the scheme;
-* `cmp`: valid name, not exactly `not`; a field of the literal's type; `ws₁`, `ws₂` are
-  layout; a word spelling needs `ws₁ ≠ []` (`ieq 5` is the identifier `ieq`), a symbol does not;
-  the literal's own conditions (`Lit.ok`). -/
-def CAtom.ok (s : Scheme) : CAtom → Bool
-  | .boolField name =>
-    nameGood name && name != "any".toList && name != "all".toList && fieldHasTy s name .bool
-  | .cmp name ws₁ _ sym ws₂ lit =>
-    nameGood name && fieldHasTy s name lit.ty && Layout ws₁ && Layout ws₂ &&
-      (sym || !ws₁.isEmpty) && lit.ok
+/-- what is asked where the tail meets a BARE name (empty path): a word operator is separated
+from the name (`ieq 5`, `iin {1}` are identifiers), and a bare `Bool` field is not called
+`any`/`all` (followed by ` (` that would be a quantifier call). After `]` nothing is asked. -/
+def CAtom.junctionOk (a : CAtom) : Bool :=
+  !a.path.isEmpty ||
+    (a.tail.sepFromName &&
+      (a.tail != .isTrue || (a.name != "any".toList && a.name != "all".toList)))
+
+/-- **side conditions** (decidable): valid name, not exactly `not`; every index suffix is
+well-formed (`Ix.ok`); the tail is (`Tail.ok`: layout, literal / item conditions); the scheme
+has the field, the path is well-typed for its type and ends in the tail's type (`Bool` for a
+bare atom, the literal's type, `Int` for `in {…}`, `Bytes` for `contains`); `junctionOk`. -/
+def CAtom.ok (s : Scheme) (a : CAtom) : Bool :=
+  nameGood a.name && a.path.all Ix.ok && a.tail.ok &&
+    fieldPathTy s a.name (a.path.map Ix.val) a.tail.ty && a.junctionOk
 
 /-- the `Atoms` structure `parse_render_logical` is instantiated with -/
 def atoms (s : Scheme) : Atoms CAtom := { txt := CAtom.txt, node := CAtom.node s }
 
 /-! ### lemmas -/
+
+theorem fieldPathTy_nil (s : Scheme) (name : List Char) (t : Ty) :
+    fieldPathTy s name [] t = fieldHasTy s name t := by
+  unfold fieldPathTy fieldHasTy
+  split <;> simp [pathTy]
 
 theorem CAtom.ok_boolField {s : Scheme} {name : List Char} (hname : nameOk name = true)
     (hnot : name ≠ "not".toList) (hany : name ≠ "any".toList)
@@ -102,7 +141,7 @@ theorem CAtom.ok_boolField {s : Scheme} {name : List Char} (hname : nameOk name 
   have e0 : (name != "not".toList) = true := bne_iff_ne.mpr hnot
   have e1 : (name != "any".toList) = true := bne_iff_ne.mpr hany
   have e2 : (name != "all".toList) = true := bne_iff_ne.mpr hall
-  simp only [CAtom.ok, nameGood]
+  simp only [CAtom.ok, nameGood, CAtom.junctionOk, List.map_nil, fieldPathTy_nil, Tail.ty]
   rw [hname, e0, hfield, e1, e2]
   rfl
 
@@ -118,7 +157,8 @@ theorem CAtom.ok_cmp {s : Scheme} {name : List Char} {ws₁ ws₂ : Input} {op :
       | nil => exact absurd rfl h
       | cons _ _ => simp
   have e0 : (name != "not".toList) = true := bne_iff_ne.mpr hnot
-  simp only [CAtom.ok, nameGood]
+  simp only [CAtom.ok, nameGood, CAtom.junctionOk, List.map_nil, fieldPathTy_nil, Tail.ty,
+    Tail.ok, Tail.sepFromName]
   rw [hname, e0, hfield, h₁, h₂, this, hlit]
   rfl
 
@@ -126,6 +166,18 @@ theorem fieldHasTy_spec {s : Scheme} {name : List Char} {t : Ty}
     (h : fieldHasTy s name t = true) :
     s.get name = some (.field (fieldIx s name)) ∧ s.fieldTy (fieldIx s name) = t := by
   unfold fieldHasTy at h
+  unfold fieldIx
+  split at h
+  · rename_i i hg
+    simp only [hg, true_and]
+    simpa using h
+  · cases h
+
+theorem fieldPathTy_spec {s : Scheme} {name : List Char} {path : List FieldIndex} {t : Ty}
+    (h : fieldPathTy s name path t = true) :
+    s.get name = some (.field (fieldIx s name)) ∧
+      pathTy (s.fieldTy (fieldIx s name)) path = some t := by
+  unfold fieldPathTy at h
   unfold fieldIx
   split at h
   · rename_i i hg
@@ -162,29 +214,12 @@ theorem cmpWithLhs_ord_steps (env : PEnv) (i : Nat) (ty : Ty)
     (e3 : skipSpace afterOp = lit)
     (e4 : lexRhsVal ty lit = some (.ok (v, rest))) :
     cmpWithLhs env (.field i []) ty input =
-      .ok ({ node := .comparison (.field i []) (.ordering op v), ty := .bool }, rest) := by
-  unfold cmpWithLhs
-  rcases hty with rfl | rfl | rfl <;>
-    simp [mapEachCount, IExpr.indexes, Ty.next, e1, e2, e3, e4]
+      .ok ({ node := .comparison (.field i []) (.ordering op v), ty := .bool }, rest) :=
+  cmpWithLhs_ord_steps' env (.field i []) rfl ty hty op v input afterLayout afterOp lit rest
+    e1 e2 e3 e4
 
-theorem layout_cons {c : Char} {cs : Input} (h : Layout (c :: cs) = true) : isSpace c = true := by
-  simp only [Layout, List.all_cons, Bool.and_eq_true] at h
-  exact h.1
-
-/-- what follows the operator: layout or a literal start, never `=` -/
-theorem afterOp_head {ws₂ : Input} (h₂ : Layout ws₂ = true) (l : Lit) (rest : Input) :
-    (ws₂ ++ (l.txt ++ rest)).head? ≠ some '=' := by
-  cases ws₂ with
-  | nil =>
-    obtain ⟨d, ds, hl, hd⟩ := l.txt_head
-    rw [List.nil_append, hl]
-    simpa using (litStart_iff hd).2
-  | cons w ws =>
-    have hw := layout_cons h₂
-    intro h
-    simp only [List.cons_append, List.head?_cons, Option.some.injEq] at h
-    subst h
-    revert hw; decide
+theorem layout_cons {c : Char} {cs : Input} (h : Layout (c :: cs) = true) : isSpace c = true :=
+  layout_head_space h
 
 /-- **`ComparisonExpr::lex_with_lhs` on `ws₁ op ws₂ literal`** -/
 theorem cmpWithLhs_ord {tight : Bool} (env : PEnv) (i : Nat) {ws₁ ws₂ : Input}
@@ -193,33 +228,9 @@ theorem cmpWithLhs_ord {tight : Bool} (env : PEnv) (i : Nat) {ws₁ ws₂ : Inpu
     cmpWithLhs env (.field i []) l.ty
         (ws₁ ++ ((ordAlias op sym).toList ++ (ws₂ ++ (l.txt ++ rest)))) =
       .ok ({ node := .comparison (.field i []) (.ordering op l.val), ty := .bool }, rest) := by
-  obtain ⟨c, cs, hal, hsp, _, _⟩ := ordAlias_head op sym
-  obtain ⟨d, ds, hl, hd⟩ := l.txt_head
-  refine cmpWithLhs_ord_steps env i l.ty l.ty_cases op l.val _ _ _ _ rest
-    (skipSpace_layout_solid h₁ ⟨c, cs ++ (ws₂ ++ (l.txt ++ rest)), by rw [hal]; rfl, hsp⟩)
-    (lexEnum_ordAlias op sym _ (afterOp_head h₂ l rest))
-    (skipSpace_layout_solid h₂ ⟨d, ds ++ rest, by rw [hl]; rfl, (litStart_iff hd).1⟩)
-    (l.lex hok rest hstop)
-
-/-- what follows the field name in a comparison ends the identifier -/
-theorem cmp_idStop {ws₁ : Input} (h₁ : Layout ws₁ = true) (op : OrdOp) (sym : Bool)
-    (hsep : (sym || !ws₁.isEmpty) = true) (x : Input) :
-    IdStop (ws₁ ++ ((ordAlias op sym).toList ++ x)) = true := by
-  cases ws₁ with
-  | cons w ws => exact idStop_of_space (layout_cons h₁) _
-  | nil =>
-    have hs : sym = true := by simpa using hsep
-    obtain ⟨c, cs, hal, _, _, hid⟩ := ordAlias_head op sym
-    rw [List.nil_append, hal]
-    exact hid hs _
-
-/-- after the layout, an operator spelling does not start with `(` -/
-theorem cmp_noParen {ws₁ : Input} (h₁ : Layout ws₁ = true) (op : OrdOp) (sym : Bool) (x : Input) :
-    expect (skipSpace (ws₁ ++ ((ordAlias op sym).toList ++ x))) "(" = none := by
-  obtain ⟨c, cs, hal, hsp, hpar, _⟩ := ordAlias_head op sym
-  rw [skipSpace_layout_solid h₁ ⟨c, cs ++ x, by rw [hal]; rfl, hsp⟩, hal]
-  show stripPrefix (c :: (cs ++ x)) ['('] = none
-  simp [stripPrefix, hpar]
+  have := cmpWithLhs_tail (tight := tight) env (.field i []) rfl (.ord ws₁ op sym ws₂ l)
+    (by simp [Tail.ok, h₁, h₂, hok]) rest hstop
+  simpa [Tail.txt, Tail.ty, Tail.op, List.append_assoc] using this
 
 /-! ### `GoodAtom` -/
 
@@ -227,67 +238,76 @@ theorem cmp_noParen {ws₁ : Input} (h₁ : Layout ws₁ = true) (op : OrdOp) (s
 `tight`) -/
 theorem goodAtom (env : PEnv) (tight : Bool) (a : CAtom) (h : a.ok env.scheme = true) :
     GoodAtom env (atoms env.scheme) tight a := by
-  cases a with
-  | boolField name =>
-    simp only [CAtom.ok, Bool.and_eq_true, bne_iff_ne, ne_eq] at h
-    obtain ⟨⟨⟨hg, hany⟩, hall⟩, hf⟩ := h
-    obtain ⟨hn, hnot⟩ := nameGood_spec hg
-    exact
-      { parses := fun n rest hs => boolField_parses_name env _ hn hf (stop_idStop hs)
-        noUnary := fun rest hs =>
-          name_noUnary env hn (fieldHasTy_registered hf) hnot (stop_idStop hs)
-        noQuant := fun rest hs => name_noQuant hn (stop_idStop hs)
-          (fun hq => by
+  obtain ⟨name, path, tail⟩ := a
+  simp only [CAtom.ok, Bool.and_eq_true] at h
+  obtain ⟨⟨⟨⟨hg, hpath⟩, htail⟩, hf⟩, hj⟩ := h
+  obtain ⟨hn, hnot⟩ := nameGood_spec hg
+  obtain ⟨hget, hty⟩ := fieldPathTy_spec hf
+  -- what `junctionOk` says when the path is empty
+  have hj' : path = [] → tail.sepFromName = true ∧
+      (tail = .isTrue → name ≠ "any".toList ∧ name ≠ "all".toList) := by
+    intro hp
+    subst hp
+    simp only [CAtom.junctionOk, List.isEmpty_nil, Bool.not_true, Bool.false_or,
+      Bool.and_eq_true, Bool.or_eq_true, bne_iff_ne, ne_eq] at hj
+    refine ⟨hj.1, fun ht => ?_⟩
+    rcases hj.2 with h | h
+    · exact absurd ht h
+    · exact h
+  have eq : ∀ rest : Input, (atoms env.scheme).txt ⟨name, path, tail⟩ ++ rest =
+      name ++ (pathTxt path ++ (tail.txt ++ rest)) := by
+    intro rest; simp [atoms, CAtom.txt, List.append_assoc]
+  have hps : ∀ rest : Input, Stop tight rest = true → PathStop path (tail.txt ++ rest) :=
+    fun rest hs => tail.pathStop htail path (fun hp => (hj' hp).1) rest hs
+  exact
+    { parses := fun n rest hs => by
+        rw [eq]
+        unfold comparisonL
+        rw [indexExprL_path env _ hn hget hpath hty (hps rest hs)]
+        exact cmpWithLhs_tail env (.field (fieldIx env.scheme name) (path.map Ix.val))
+          (mapEachCount_path path) tail htail rest hs
+      noUnary := fun rest hs => by
+        rw [eq]
+        exact name_noUnary_ns env hn (by rw [hget]; rfl) hnot (hps rest hs).name
+      noQuant := fun rest hs => by
+        rw [eq]
+        refine name_noQuant_ns hn (hps rest hs).name (fun hq => ?_)
+        cases path with
+        | cons ix r =>
+          obtain ⟨x, hx⟩ := pathTxt_head (ix := ix) (r := r) (tail.txt ++ rest)
+          rw [hx, skipSpace_cons_of_not_space _ (by decide)]
+          show stripPrefix ('[' :: x) ['('] = none
+          simp [stripPrefix]
+        | nil =>
+          by_cases ht : tail = .isTrue
+          · obtain ⟨h1, h2⟩ := (hj' rfl).2 ht
             rcases hq with hq | hq
-            · exact absurd hq hany
-            · exact absurd hq hall)
-        notCombining := rfl }
-  | cmp name ws₁ op sym ws₂ lit =>
-    simp only [CAtom.ok, Bool.and_eq_true] at h
-    obtain ⟨⟨⟨⟨⟨hg, hf⟩, h₁⟩, h₂⟩, hsep⟩, hlit⟩ := h
-    obtain ⟨hn, hnot⟩ := nameGood_spec hg
-    obtain ⟨hget, hty⟩ := fieldHasTy_spec hf
-    have eq : ∀ rest : Input, (atoms env.scheme).txt (.cmp name ws₁ op sym ws₂ lit) ++ rest =
-        name ++ (ws₁ ++ ((ordAlias op sym).toList ++ (ws₂ ++ (lit.txt ++ rest)))) := by
-      intro rest; simp [atoms, CAtom.txt, List.append_assoc]
-    exact
-      { parses := fun n rest hs => by
-          rw [eq]
-          unfold comparisonL
-          rw [indexExprL_field env _ hn hget (cmp_idStop h₁ op sym hsep _)]
-          simp only [hty]
-          exact cmpWithLhs_ord env _ h₁ h₂ op sym lit hlit rest hs
-        noUnary := fun rest _ => by
-          rw [eq]
-          exact name_noUnary env hn (fieldHasTy_registered hf) hnot (cmp_idStop h₁ op sym hsep _)
-        noQuant := fun rest _ => by
-          rw [eq]
-          exact name_noQuant hn (cmp_idStop h₁ op sym hsep _) (fun _ => cmp_noParen h₁ op sym _)
-        notCombining := rfl }
+            · exact absurd hq h1
+            · exact absurd hq h2
+          · simpa [pathTxt] using tail.noParen htail ht rest
+      notCombining := rfl }
 
 /-! ### what an atom MEANS: field, operator, value -/
 
-/-- a concrete atom without its spelling: which field, which operator, which value -/
-inductive Core
-  | isTrue (name : List Char)
-  | ord (name : List Char) (op : OrdOp) (v : RhsVal)
+/-- a concrete atom without its spelling: which field, which indexes, which operator with which
+value(s) -/
+structure Core where
+  name : List Char
+  path : List FieldIndex
+  op : CmpOp
 deriving DecidableEq, Repr
 
-/-- forgets the operator spelling, the layout and the way the literal is written (radix, escapes,
-`::` compression) -/
-def CAtom.core : CAtom → Core
-  | .boolField name => .isTrue name
-  | .cmp name _ op _ _ lit => .ord name op lit.val
+/-- forgets the operator spelling, the layout (also inside `[ ]` and `{ }`) and the way literals,
+indexes and keys are written (radix, escapes, `::` compression) -/
+def CAtom.core (a : CAtom) : Core := ⟨a.name, a.path.map Ix.val, a.tail.op⟩
 
-def Core.node (s : Scheme) : Core → LExpr
-  | .isTrue name => .comparison (.field (fieldIx s name) []) .isTrue
-  | .ord name op v => .comparison (.field (fieldIx s name) []) (.ordering op v)
+def Core.node (s : Scheme) (c : Core) : LExpr :=
+  .comparison (.field (fieldIx s c.name) c.path) c.op
 
 /-- nodes of cores (the text is irrelevant for `canon`) -/
 def coreAtoms (s : Scheme) : Atoms Core := { txt := fun _ => [], node := Core.node s }
 
-theorem node_core (s : Scheme) (a : CAtom) : (atoms s).node a = (coreAtoms s).node a.core := by
-  cases a <;> rfl
+theorem node_core (s : Scheme) (a : CAtom) : (atoms s).node a = (coreAtoms s).node a.core := rfl
 
 /-- the AST of a skeleton of concrete atoms is determined by the cores -/
 theorem canon_core (s : Scheme) (sk : Sk CAtom) :
